@@ -351,6 +351,17 @@ Section C19.
     reflexivity.
   Qed.
 
+  (* a dot-free name that is no package name: auto.Wrap is texttable.Wrap +
+     SetDecorationNamed of exactly that name (C17's OAutoNew) *)
+  Lemma plain_is_set reg n :
+    nodot n -> plain_name lower n -> wrap' reg n = Ok (RText (text_named reg n)).
+  Proof.
+    intros Nd Hp. unfold wrap. rewrite (split_dot_nodot n Nd).
+    unfold plain_name in Hp. rewrite (first_section_nodot n Nd) in Hp.
+    destruct (not_in_five _ Hp) as [A [B [C [D E]]]].
+    unfold idx. simpl nth_error. simpl bind. rewrite A, B, C, D, E. reflexivity.
+  Qed.
+
   Lemma texttable_default reg : wrap' reg s_texttable = Ok (RText text_wrap).
   Proof.
     unfold wrap. change (split_dot s_texttable) with [s_texttable].
